@@ -280,6 +280,11 @@ func extractZip(zipFile, dest string) error {
 	defer r.Close()
 	decompress := func(file *zip.File) error {
 		path := filepath.Join(dest, file.Name)
+		// Reject entries that would be written outside dest (zip-slip), exactly
+		// as extractTarGz does.
+		if !strings.HasPrefix(path, filepath.Clean(dest)+string(os.PathSeparator)) {
+			return fmt.Errorf("%s: illegal file path", path)
+		}
 
 		if file.FileInfo().IsDir() {
 			return os.MkdirAll(path, 0700)
